@@ -12,6 +12,7 @@ import (
 	"os"
 	"runtime"
 	"runtime/debug"
+	"strconv"
 	"strings"
 	"sync"
 )
@@ -136,6 +137,9 @@ func Yield() { runtime.Gosched() }
 // Schedule enables schedule exploration with preemption bound p.
 func Schedule(p int) {}
 
+// SymbolicRand makes math/rand sources return arbitrary (symbolic) values.
+func SymbolicRand() {}
+
 // MapRaces enables detection of overlapping map accesses.
 func MapRaces() {}
 
@@ -179,6 +183,29 @@ func RunReplay(t T, harnesses map[string]func()) {
 	if !ok {
 		t.Fatalf("unknown harness %s", rf.Harness)
 	}
+	stress, _ := strconv.Atoi(os.Getenv("ZZ_STRESS"))
+	for it := 0; it < stress; it++ {
+		// schedule-dependent counterexample: repeat under the real scheduler
+		// (a panic in a goroutine aborts the process and is seen by the driver)
+		mu.Lock()
+		pos, failures, events, desync = 0, nil, nil, ""
+		mu.Unlock()
+		runtime.GOMAXPROCS(1 + it%4)
+		func() {
+			defer func() { recover() }()
+			h()
+		}()
+		mu.Lock()
+		nf := len(failures)
+		mu.Unlock()
+		if nf > 0 {
+			fmt.Println("REPLAY-STRESS-ITER:", it)
+			goto report
+		}
+	}
+	mu.Lock()
+	pos, failures, events, desync = 0, nil, nil, ""
+	mu.Unlock()
 	func() {
 		defer func() {
 			if r := recover(); r != nil {
@@ -197,6 +224,7 @@ func RunReplay(t T, harnesses map[string]func()) {
 		}()
 		h()
 	}()
+report:
 	for _, e := range events {
 		fmt.Println("REPLAY-EVENT:", e)
 	}
